@@ -244,8 +244,18 @@ func pat(mid, end int, nonce *appctlpb.NoncePattern, le appctlpb.LowEntropyMode,
 	}
 	p.LowEntropy = &appctlpb.LowEntropyPattern{Mode: le.Enum(), MaskRotation: rot.Enum()}
 	p.TcpFragment = &appctlpb.TCPFragment{Enable: proto.Bool(frag), MaxSleepMs: proto.Int32(1)}
+	switch fragSleepVariant % 3 {
+	case 1:
+		p.TcpFragment.MaxSleepMs = proto.Int32(0)
+	case 2:
+		p.TcpFragment.MaxSleepMs = nil // implicit: derived from the seed
+	}
+	fragSleepVariant++
 	return p
 }
+
+// fragSleepVariant cycles the TCP fragmentation sleep setting through 1 ms, explicit 0 and unset.
+var fragSleepVariant int
 
 func patName(p *appctlpb.TrafficPattern) string {
 	if p == nil {
@@ -269,6 +279,11 @@ func patName(p *appctlpb.TrafficPattern) string {
 	}
 	if p.TcpFragment.GetEnable() {
 		s += ",frag"
+		if p.TcpFragment.MaxSleepMs == nil {
+			s += "(sleep-unset)"
+		} else {
+			s += fmt.Sprintf("(sleep%d)", p.TcpFragment.GetMaxSleepMs())
+		}
 	}
 	return s
 }
@@ -374,7 +389,51 @@ func checkC14(r *vh.Run, res *result) {
 	})
 }
 
+// checkTCPFragmentation: with tcpFragment.enable explicitly true every session-control segment (the only segments
+// the code fragments) must leave in at least two writes; with it explicitly false every segment leaves in one write.
+func checkTCPFragmentation(r *vh.Run, res *result) {
+	for _, c := range res.tcp {
+		for _, d := range []*trace.Dir{&c.C2S, &c.S2C} {
+			si := res.sender(d.Src)
+			if si.pat == nil || si.pat.TcpFragment == nil || si.pat.TcpFragment.Enable == nil || d.Err != nil {
+				continue
+			}
+			enable := si.pat.TcpFragment.GetEnable()
+			// write boundaries as stream offsets
+			bounds := []int{}
+			off := 0
+			for _, w := range d.Writes {
+				off += w
+				bounds = append(bounds, off)
+			}
+			start := 0
+			for i := range d.Segs {
+				end := d.SegEnd[i]
+				writes := 0
+				prev := 0
+				for _, b := range bounds {
+					if b > start && prev < end {
+						writes++
+					}
+					prev = b
+				}
+				seg := d.Segs[i]
+				r.Count("tcp-segment-writes")
+				if seg.Meta.IsSession() && enable && writes < 2 {
+					r.Fail("tcp-fragmentation-enabled-but-single-write", fmt.Sprintf("%s has tcpFragment.enable=true (%s) but its session segment type %d (%d bytes) left in %d write", si.side, patName(si.pat), seg.Meta.Proto, end-start, writes),
+						caseOf(res, map[string]interface{}{"sender": si.side, "segment_bytes": end - start}))
+				}
+				if !enable && writes != 1 {
+					r.Fail("tcp-fragmentation-disabled-but-split", fmt.Sprintf("%s has tcpFragment.enable=false but a segment left in %d writes", si.side, writes), caseOf(res, nil))
+				}
+				start = end
+			}
+		}
+	}
+}
+
 func checkC16(r *vh.Run, res *result) {
+	checkTCPFragmentation(r, res)
 	clientUsedLE := false
 	res.eachSegment(func(si senderInfo, seg *refcodec.Segment, raw []byte, first bool) {
 		m := seg.Meta
